@@ -280,6 +280,38 @@ def register(S):
                             outs.extend(pull_adapt(ip, s3, it2, back, fuel - 1))
                         else:
                             raise Inconclusive("iterator model: filter fuel exhausted")
+            elif op in ("take_while", "skip_while"):
+                if op == "take_while" and it.get("done"):
+                    outs.append((s, it, END))
+                    continue
+                if op == "skip_while" and not it.get("skipping"):
+                    outs.append((s, it2, e))
+                    continue
+                eref = RefVal(s.new_heap(e), False)
+                for s2, rv in call_sync(ip, s, it.get("f"), [eref]):
+                    if rv is DEAD:
+                        outs.append((s2, it2, DEAD))
+                        continue
+                    for s3, truth in split_bool(ip, s2, rv):
+                        ev = ip.read_loc(s3, eref.loc)
+                        if op == "take_while":
+                            outs.append((s3, it2, ev) if truth else (s3, it2.set(done=True), END))
+                        elif truth:
+                            if fuel <= 0:
+                                raise Inconclusive("iterator model: skip_while fuel exhausted")
+                            outs.extend(pull_adapt(ip, s3, it2, back, fuel - 1))
+                        else:
+                            outs.append((s3, it2.set(skipping=False), ev))
+            elif op == "map_while":
+                if it.get("done"):
+                    outs.append((s, it, END))
+                    continue
+                for s2, rv in call_sync(ip, s, it.get("f"), [e]):
+                    if rv is DEAD:
+                        outs.append((s2, it2, DEAD))
+                        continue
+                    for s3, pv in split_option(ip, s2, rv):
+                        outs.append((s3, it2, pv) if pv is not END else (s3, it2.set(done=True), END))
             elif op == "filter_map":
                 for s2, rv in call_sync(ip, s, it.get("f"), [e]):
                     if rv is DEAD:
@@ -300,8 +332,8 @@ def register(S):
     def const_usize(v):
         return v.cval() if isinstance(v, IntVal) and v.is_const() else None
 
-    @S.pat(r"^core::iter::traits::iterator::Iterator::(map|filter|filter_map|enumerate|copied|cloned|take|skip|zip|chain|rev|by_ref|peekable|fuse)$"
-           r"|^core::iter::traits::double_ended::DoubleEndedIterator::rev$|^<.* as core::iter::traits::iterator::Iterator>::(map|filter|filter_map|enumerate|copied|cloned|take|skip|zip|chain|rev|fuse)$")
+    @S.pat(r"^core::iter::traits::iterator::Iterator::(map|filter|filter_map|enumerate|copied|cloned|take|skip|zip|chain|rev|by_ref|peekable|fuse|take_while|skip_while|map_while)$"
+           r"|^core::iter::traits::double_ended::DoubleEndedIterator::rev$|^<.* as core::iter::traits::iterator::Iterator>::(map|filter|filter_map|enumerate|copied|cloned|take|skip|zip|chain|rev|fuse|take_while|skip_while|map_while)$")
     def adaptor(ctx):
         op = ctx.path.rsplit("::", 1)[1]
         it = ctx.args[0]
@@ -312,8 +344,12 @@ def register(S):
         if op in ("by_ref", "peekable"):
             return NotImplemented
         kw = {"op": op, "inner": it}
-        if op in ("map", "filter", "filter_map"):
+        if op in ("map", "filter", "filter_map", "take_while", "skip_while", "map_while"):
             kw["f"] = ctx.args[1]
+            if op in ("take_while", "map_while"):
+                kw["done"] = False
+            if op == "skip_while":
+                kw["skipping"] = True
         elif op == "enumerate":
             kw["idx"] = 0
         elif op in ("take", "skip"):
